@@ -521,6 +521,10 @@ class GraphWorld:
                 raise AbstractRaise("KeyError", node, detail="+= on a missing snapshot counter")
             self._snap_record(key, "inc", rhs.v, node)
             return
+        if isinstance(v, Opaque) and v.tag.startswith("counter+"):
+            # snapshots[k] = snapshots[k] + c  /  snapshots.get(k, 0) + c on a present key
+            self._snap_record(key, "inc", int(v.tag[len("counter+"):]), node)
+            return
         if isinstance(v, Const) and isinstance(v.v, int):
             present = self.snap_contains(key, node)
             self._snap_record(key, "set_present" if present else "set_absent", v.v, node)
@@ -558,7 +562,7 @@ class GraphWorld:
             env2 = dict(env)
             env2[st.target.id] = lv
             try:
-                ip.exec_block(st.body, env2)
+                ip.run_loop_body(st, env2)
             except Fork:
                 raise
             finally:
@@ -625,7 +629,11 @@ class GraphWorld:
         if isinstance(a, Opaque) and a.tag == "counter" and isinstance(b, Const):
             if isinstance(op, (ast.Div, ast.FloorDiv)):
                 return Opaque("counter/%s" % b.v)
+            if isinstance(op, ast.Add) and isinstance(b.v, int):
+                return Opaque("counter+%d" % b.v)
             return Opaque("counter")
+        if isinstance(b, Opaque) and b.tag == "counter" and isinstance(a, Const) and isinstance(op, ast.Add) and isinstance(a.v, int):
+            return Opaque("counter+%d" % a.v)
         return None
 
     def on_yield(self, ip, v, node):
@@ -737,6 +745,10 @@ class GraphWorld:
         if isinstance(obj, AdjRow) and name == "get" and 1 <= len(args) <= 2 and isinstance(args[0], NodeV):
             if self.pair_exists(obj.store, obj.role, args[0].role):
                 return self.pair_dict(obj.store, obj.role, args[0].role, node)
+            return args[1] if len(args) == 2 else NONE
+        if isinstance(obj, Snapshots) and name == "get" and 1 <= len(args) <= 2:
+            if self.snap_contains(args[0], node):
+                return Opaque("counter")
             return args[1] if len(args) == 2 else NONE
         if isinstance(obj, TTE):
             if name == "get" and 1 <= len(args) <= 2:
